@@ -154,6 +154,18 @@ def skeletonsOf : Backend → List (List Sk)
 def collectPaths : List (List Sk) :=
   [CollectorRegistry_collect, RestrictedRegistry_collect, MetricWrapperBase_multi_samples]
 
+/-! ### collect returns values, not references to state that is later changed -/
+
+/-- the shared objects a collect hands out BY REFERENCE inside its samples: the label dict of an `Info` (`Sample('_info',
+self._value, …)`) and the registry's target-info dict (`_target_info_metric`, `get_target_info`).  A scraper reads them after
+the lock is released, so they may only ever be REBOUND to a fresh object, never changed in place.  (The child table and the
+collector table are handed out as copies; floats are immutable.) -/
+def handedOut (method : String) : List Var :=
+  (if method.startsWith "Info_" || method.startsWith "Enum_" then [Var.value] else []) ++ [Var.targetInfo]
+
+def noInPlaceOnHandedOut (tbl : List (String × List Var)) : Bool :=
+  tbl.all (fun e => (handedOut e.1).all (fun x => !e.2.contains x))
+
 /-! ### one shared child -/
 
 /-- the child table of a labelled parent: label values ↦ child identity -/
